@@ -90,6 +90,7 @@ type State struct {
 	recvd   map[string]bool // channels a value was received from on this path
 	recvdT  []*Term         // the same channels as terms
 	lockSnaps map[string]*State // lock_protocol: state right after the last acquire of a local mutex
+	loopEntry map[*ssa.BasicBlock]*State // state in which a loop was entered (before its variables were havoced): loopentry(e)
 }
 
 func (st *State) clone() *State {
@@ -131,6 +132,12 @@ func (st *State) clone() *State {
 		n.ghostv[k] = v
 	}
 	n.recvdT = append([]*Term{}, st.recvdT...)
+	if st.loopEntry != nil {
+		n.loopEntry = make(map[*ssa.BasicBlock]*State, len(st.loopEntry))
+		for k, v := range st.loopEntry {
+			n.loopEntry[k] = v
+		}
+	}
 	if st.lockSnaps != nil {
 		n.lockSnaps = map[string]*State{}
 		for k, v := range st.lockSnaps {
